@@ -146,9 +146,9 @@ def main():
     interacted = []
     orig_interact = Interactor.interact
 
-    def spy(self, varname, key, category, value, overridable):
-        interacted.append(varname)
-        return orig_interact(self, varname, key, category, value, overridable)
+    def spy(self, *args, **kwargs):
+        interacted.append(args[0] if args else kwargs.get("varname"))
+        return orig_interact(self, *args, **kwargs)
     Interactor.interact = spy
     for i, cfg in enumerate(cfgs):
         fn = getattr(mod, f"t{i}")
